@@ -212,6 +212,14 @@ def int_rows(rows, maxw):
                 rows.append({'op': 'fx', 'kind': 'add', 'w': w, 'fw': fw, 'a': a, 'b': b, 'got': fa.add(fb).v})
                 rows.append({'op': 'fx', 'kind': 'sub', 'w': w, 'fw': fw, 'a': a, 'b': b, 'got': fa.sub(fb).v})
                 rows.append({'op': 'fx', 'kind': 'mult', 'w': w, 'fw': fw, 'a': a, 'b': b, 'got': fa.mult(fb).v})
+    # unsigned formats (no sign bit): the same modular rules on w = iw + fw bits
+    for iw, fw in ((1, 1), (2, 1), (2, 2), (3, 1)):
+        w = iw + fw
+        for a in range(1 << w):
+            for b in range(1 << w):
+                fa, fb = FixedPoint.fromRawValue(0, iw, fw, a), FixedPoint.fromRawValue(0, iw, fw, b)
+                rows.append({'op': 'fx', 'kind': 'add', 'w': w, 'fw': fw, 'a': a, 'b': b, 'got': fa.add(fb).v})
+                rows.append({'op': 'fx', 'kind': 'sub', 'w': w, 'fw': fw, 'a': a, 'b': b, 'got': fa.sub(fb).v})
 
 
 def judge(run, rows, tag):
